@@ -504,7 +504,7 @@ def _pair_list(cx, label, annotated: bool):
     l = SList(None, length=m, fresh=False, label=label, kind="tuple")
 
     def elem(j):
-        c = SObj("AnnotatedContainer" if annotated else "Container", {}, fresh=False, label="container")
+        c = SObj("Container", {}, fresh=False, label="container")   # abstract: calls go through Container's contracts
         c.ident = cx.const("container", I)
         if annotated:
             c.fields["annotation"] = cx.str("annotation")
@@ -658,3 +658,203 @@ class Expression_fitness(FitnessOverride):
         me, t = a["self"].ident, a["tree"].ident
         s0, _ = pre_ids(a)
         return AllOkE(me, t, s0, NCombos(me, t, s0))
+
+
+# ---- comparison ----------------------------------------------------------------------------------
+
+def _cmp_ok(cx, a, i):
+    """combination i counts as satisfied: neither side raises and the operator holds"""
+    me, t = a["self"].ident, a["tree"].ident
+    s0, _ = pre_ids(a)
+    c = CombId(me, t, s0, i)
+    le, re_ = a["self"].fields["_left"].ident, a["self"].fields["_right"].ident
+    return And(Not(EvalRaises(me, le, c)), Not(EvalRaises(me, re_, c)), CmpTrue(me, c))
+
+
+@register
+class Comparison_evaluate_comparison(Contract):
+    """contract of the helper as used by fitness(); verified below (Comparison_evaluate_comparison_body)"""
+    target = "constraints/comparison.py:ComparisonConstraint._evaluate_comparison"
+    properties = ("C02", "C07")
+    float_mode = "real"
+    cases = ("EQUAL", "NOT_EQUAL", "GREATER", "GREATER_EQUAL", "LESS", "LESS_EQUAL")
+
+    # -- call-site direction
+    def may_raise(self, cx, a):
+        return [("Exception", CmpRaises(cx.ghost["self_id"], cx.ghost["cur_combo"]))]
+
+    def fresh_result(self, cx, a):
+        return (cx.float("cmp_fitness"), cx.opaque("Suggestion", maybe_none=z3.BoolVal(False)))
+
+    def ensures(self, cx, a, r):
+        from pyvc.dsl import feq
+        me = cx.ghost.get("self_id")
+        holds = CmpTrue(me, cx.ghost["cur_combo"]) if me is not None and "cur_combo" in cx.ghost else None
+        f = r[0]
+        out = [("value_is_zero_or_one", Or(feq(f, 0.0), feq(f, 1.0)))]
+        if holds is not None:
+            out.append(("one_iff_comparison_holds", feq(f, 1.0) == holds))
+        return out
+
+    # -- verification direction
+    def inputs(self, cx, case):
+        from pyvc.values import SEnumMember
+        s = _leaf_self(cx, "ComparisonConstraint")
+        values = {"EQUAL": "==", "NOT_EQUAL": "!=", "GREATER": ">", "GREATER_EQUAL": ">=", "LESS": "<", "LESS_EQUAL": "<="}
+        s.fields["_operator"] = SEnumMember("Comparison", case, values[case])
+        cx.ghost["cur_combo"] = cx.const("combo", I)
+        left = cx.opaque("value", base="left")
+        right = cx.opaque("value", base="right")
+        for v in (left, right):
+            v.attrs["isinstance"] = lambda n: False if n in ("DerivationTree",) else None
+        def mk(nm):
+            sym = cx.opaque("Symbol", base=nm + "_symbol")
+            isnt = cx.bool(nm + "_symbol_is_nt").term
+            sym.attrs["isinstance"] = lambda n, isnt=isnt: isnt
+            o = cx.opaque("DerivationTree", base=nm, maybe_none=cx.bool(nm + "_is_none").term)
+            o.attrs["symbol"] = sym
+            o.attrs["methods"] = {"parseable_from": lambda it, *args: cx.bool("parseable")}
+            o.attrs["eq"] = lambda other: cx.bool("tree_eq_value")
+            return o
+
+        return {"self": s, "left": left, "right": right, "single_left_tree": mk("slt"), "single_right_tree": mk("srt")}
+
+
+@register
+class Comparison_compare(Contract):
+    """assumed: Comparison.compare applies the Python operator to user values: it returns a bool or raises"""
+    target = "constraints/failing_tree.py:Comparison.compare"
+    trusted = True
+
+    def may_raise(self, cx, a):
+        return [("Exception", CmpRaises(cx.ghost["self_id"], cx.ghost["cur_combo"]))]
+
+    def fresh_result(self, cx, a):
+        return SBool(CmpTrue(cx.ghost["self_id"], cx.ghost["cur_combo"]))
+
+
+@register
+class Comparison_distance_norm(Contract):
+    target = "constraints/comparison.py:_distance_norm"
+    properties = ("C02", "C07")
+    float_mode = "real"
+
+    def inputs(self, cx):
+        l, r = cx.opaque("value", base="left"), cx.opaque("value", base="right")
+        sub_raises = cx.bool("sub_raises").term
+        rsub_raises = cx.bool("rsub_raises").term
+
+        def sub(it, other, me=l, flag=sub_raises):
+            return None
+
+        # user values: `-` either raises or returns some value (not the object `float | int`)
+        l.attrs["binop"] = lambda op, other: ("raise" if cx.branch(sub_raises, "left-right raises") else cx.opaque("value", base="dist"))
+        r.attrs["binop"] = lambda op, other: ("raise" if cx.branch(rsub_raises, "right-left raises") else cx.opaque("value", base="dist"))
+        return {"left": l, "right": r}
+
+    def fresh_result(self, cx, a):
+        return None
+
+    def ensures(self, cx, a, r):
+        # `dist is float | int` compares a value with a freshly built types.UnionType object: never true
+        return [("always_none", z3.BoolVal(r is None))]
+
+
+class _CmpLoop:
+    @staticmethod
+    def havoc(cx, env, i):
+        from pyvc.lists import term_list
+        a = cx.ghost["pre_args"]
+        env["fitness_values"] = term_list(cx, "values", i, "float")
+        env["failing_trees"] = _opaque_trees(cx)
+        env["suggestions"] = cx.opaque_list(cx.int("n_sugg", lo=0), fresh=True)
+        env["has_combinations"] = cx.bool("has_combinations")
+        env["self"].fields["_types_checked"] = cx.bool("types_checked")
+        _allok_unfold(cx, a, idx_term(i), _cmp_ok(cx, a, idx_term(i)))
+
+    @staticmethod
+    def inv(cx, env, i):
+        from pyvc.dsl import feq
+        a = cx.ghost["pre_args"]
+        me, t = a["self"].ident, a["tree"].ident
+        s0, _ = pre_ids(a)
+        it = idx_term(i) if not isinstance(i, int) else z3.IntVal(i)
+        fv = env["fitness_values"]
+        out = [("one_value_per_combination", T(cmp("==", fv.length if not fv.concrete else len(fv.items), i))),
+               ("has_combinations_flag", T(env["has_combinations"]) == (it > 0))]
+        if fv.concrete:
+            return out
+        j = z3.Int(cx._name("ij"))
+        fn = fv.ghost["elem_term"][1]
+        out.append(("values_are_zero_or_one_and_match", ForAll([j], Implies(And(j >= 0, j < it), And(
+            Or(feq(fn(j), 0.0), feq(fn(j), 1.0)), feq(fn(j), 1.0) == _cmp_ok(cx, a, j))))))
+        j2 = z3.Int(cx._name("ij"))
+        out.append(("prefix_all_ok", AllOkE(me, t, s0, it) == ForAll([j2], Implies(And(j2 >= 0, j2 < it), feq(fn(j2), 1.0)))))
+        return out
+
+
+def _havoc_lr(cx, env, i):
+    env["left_trees"] = cx.opaque_list(cx.int("n_left", lo=0), fresh=True)
+    env["right_trees"] = cx.opaque_list(cx.int("n_right", lo=0), fresh=True)
+
+
+@register
+class Comparison_check_types(Contract):
+    """assumed: diagnostic only (emits a warning), returns a bool"""
+    target = "constraints/comparison.py:ComparisonConstraint.check_type_compatibility"
+    trusted = True
+
+    def fresh_result(self, cx, a):
+        return cx.bool("types_checked")
+
+
+@register
+class Comparison_fitness(FitnessOverride):
+    target = "constraints/comparison.py:ComparisonConstraint.fitness"
+    cls = "ComparisonConstraint"
+    loops = {
+        0: Loop(0, iter_text="self.combinations(tree, scope)", inv=_CmpLoop.inv, havoc=_CmpLoop.havoc,
+                modifies=("fitness_values", "failing_trees", "suggestions", "has_combinations", "self._types_checked",
+                          "untyped_combination", "combination", "local_vars", "var_evals", "left_trees", "right_trees",
+                          "annotation", "tree", "single_left_tree", "single_right_tree", "left", "right", "e",
+                          "fitness_value", "suggestion", "_", "container")),
+        1: Loop(1, iter_text="filter(lambda x: isinstance(x[1], DerivationTree), var_evals.values())", inv=_trivial_inv,
+                havoc=_havoc_lr, modifies=("left_trees", "right_trees", "annotation", "tree")),
+    }
+    # the loops that only collect failing trees are keyed by what they iterate, not by position
+    loops_by_text = {
+        "combination": Loop(-1, iter_text="combination", inv=_trivial_inv, havoc=_havoc_failing,
+                            modifies=("failing_trees", "_", "container")),
+    }
+
+    def make_self(self, cx):
+        s = _leaf_self(cx, self.cls)
+        s.fields["_left"] = cx.opaque("str", base="left_expr")
+        s.fields["_right"] = cx.opaque("str", base="right_expr")
+        s.fields["_types_checked"] = cx.bool("types_checked0")
+        s.fields["types_checked"] = True   # hasattr(self, "types_checked") is irrelevant to the verdict
+        return s
+
+    def inputs(self, cx, case):
+        a = super().inputs(cx, case)
+        me, t = a["self"].ident, a["tree"].ident
+        s0, _ = pre_ids(a)
+        cx.assume(AllOkE(me, t, s0, z3.IntVal(0)))
+        return a
+
+    def sem(self, cx, a):
+        me, t = a["self"].ident, a["tree"].ident
+        s0, _ = pre_ids(a)
+        return AllOkE(me, t, s0, NCombos(me, t, s0))
+
+    def replay(self, obligation, model):
+        from contracts import replay_constraints
+        return replay_constraints.raising_script(obligation, model)
+
+    def ensures(self, cx, a, r):
+        # counting lemma for solved = #(values == 1.0) against total = len(values)
+        sums = cx.ghost.get("sums", [])
+        if sums:
+            lemmas.sum01(cx, sums[-1])
+        # AllOkE(n) <=> forall j < n. ok(j): needed to connect `all(it == 1.0 ...)` with the recursive ghost predicate
+        return super().ensures(cx, a, r)
